@@ -209,13 +209,9 @@ Section PtxModel.
     let deq := m_deq s i in
     let dn := m_done s i in
     let en := p_en i in
-    {| x_cred := if en then (if m_lcrd_ok s i && negb take then inc cw (x_cred s)
-                             else if take && negb (m_lcrd_ok s i) then dec cw (x_cred s) else x_cred s) else 0;
-       x_tosend := if en then (if lbad then (x_await s + b2n take) mod 2 ^ cw
-                               else if take && negb deq then inc cw (x_tosend s)
-                               else if deq && negb take then dec cw (x_tosend s) else x_tosend s) else 0;
-       x_await := if en then (if take && negb ret then inc cw (x_await s)
-                              else if ret && negb take then dec cw (x_await s) else x_await s) else 0;
+    {| x_cred := if en then updown cw (x_cred s) (m_lcrd_ok s i) take else 0;
+       x_tosend := if en then (if lbad then (x_await s + b2n take) mod 2 ^ cw else updown cw (x_tosend s) take deq) else 0;
+       x_await := if en then updown cw (x_await s) take ret else 0;
        x_rd := if en then (if lbad then x_ak s else if deq then inc pw (x_rd s) else x_rd s) else 0;
        x_wr := if en then (if take then inc pw (x_wr s) else x_wr s) else 0;
        x_ak := if en then (if ret then inc pw (x_ak s) else x_ak s) else 0;
